@@ -2,6 +2,8 @@
 Helper lemmas for CV.Store.Snap, part 3: all nodes, the phases after the catalog, and the composition.
 -/
 import CV.Proofs.StoreSnapCat
+import CV.Proofs.StoreEnv
+import CV.Store.Query
 set_option linter.unusedSectionVars false
 set_option linter.unusedSimpArgs false
 namespace CV.Store
@@ -32,18 +34,19 @@ theorem mem_chksOf {s : State} {n : Node} {c : Chk} : c ∈ chksOf s n ↔ c ∈
   simp [chksOf]
 
 /-- all records of one node -/
-theorem one_node {s : State} (w : CatWF s) (last : Nat) {st : State} {PN : Node → Prop} {PV : Svc → Prop} {PC : Chk → Prop}
-    (h : CInv st PN PV PC) (n : Node) (hn : n ∈ s.nodes)
+theorem one_node {K : String → Prop} {s : State} (w : CatWF s) (last : Nat) {st : State} {PN : Node → Prop} {PV : Svc → Prop} {PC : Chk → Prop}
+    (h : CInv K st PN PV PC) (n : Node) (hn : n ∈ s.nodes)
     (hPN : ∀ x, PN x → x ∈ s.nodes ∧ x ≠ n)
     (hPV : ∀ x, PV x → x ∈ s.svcs ∧ lc x.node ≠ lc n.name)
-    (hPC : ∀ x, PC x → x ∈ s.chks ∧ lc x.node ≠ lc n.name) :
+    (hPC : ∀ x, PC x → x ∈ s.chks ∧ lc x.node ≠ lc n.name)
+    (hK : CatKeys K (fun x => x = n ∨ PN x) (fun x => x ∈ svcsOf s n ∨ PV x) (fun x => x ∈ chksOf s n ∨ PC x)) :
     ∃ st', foldE (restoreRec last) (nodeRecs s n) st = .ok st' ∧
-      CInv st' (fun x => x = n ∨ PN x) (fun x => x ∈ svcsOf s n ∨ PV x) (fun x => x ∈ chksOf s n ∨ PC x) := by
+      CInv K st' (fun x => x = n ∨ PN x) (fun x => x ∈ svcsOf s n ∨ PV x) (fun x => x ∈ chksOf s n ∨ PC x) := by
   -- the node record
   obtain ⟨e1, h1⟩ := step_node h last n
     (fun x hx => node_name_ne w (hPN x hx).1 hn (hPN x hx).2)
     (fun x hx hh => (hPN x hx).2 (w.nodeIds x (hPN x hx).1 n hn hh.1 hh.2))
-    (w.nodeCreate n hn)
+    (w.nodeCreate n hn) (hK.mono (fun _ hx => hx) (fun _ hx => Or.inr hx) (fun _ hx => Or.inr hx))
   have hnP : (fun x => x = n ∨ PN x) n := Or.inl rfl
   -- its services
   have hsub : (svcsOf s n).Sublist s.svcs := List.filter_sublist
@@ -58,6 +61,7 @@ theorem one_node {s : State} (w : CatWF s) (last : Nat) {st : State} {PN : Node 
       obtain ⟨hv1, hv2⟩ := mem_svcsOf.mp hv
       have := tsorted_unique strLt_ord w.vs (hPV x hx).1 hv1 e
       exact (hPV x hx).2 (this ▸ hv2))
+    (hK.mono (fun _ hx => hx) (fun _ hx => hx) (fun _ hx => Or.inr hx))
   -- its checks
   have hsubc : (chksOf s n).Sublist s.chks := List.filter_sublist
   obtain ⟨s3, e3, h3⟩ := loop_chk last n hnP (chksOf s n) s2 PC h2
@@ -71,7 +75,7 @@ theorem one_node {s : State} (w : CatWF s) (last : Nat) {st : State} {PN : Node 
     (fun c hc hs => by
       obtain ⟨hc1, hc2⟩ := mem_chksOf.mp hc
       obtain ⟨v, hv, a, b, d⟩ := w.chkSvc c hc1 hs
-      exact ⟨v, Or.inl (mem_svcsOf.mpr ⟨hv, a.trans hc2⟩), a, b, d⟩)
+      exact ⟨v, Or.inl (mem_svcsOf.mpr ⟨hv, a.trans hc2⟩), a, b, d⟩) hK
   refine ⟨s3, ?_, h3⟩
   unfold nodeRecs
   simp only [foldE, e1]
@@ -79,28 +83,43 @@ theorem one_node {s : State} (w : CatWF s) (last : Nat) {st : State} {PN : Node 
   exact e3
 
 /-- the catalog phase: all nodes in table order -/
-theorem all_nodes {s : State} (w : CatWF s) (last : Nat) :
-    ∀ (ns : List Node) (st : State) (PN : Node → Prop) (PV : Svc → Prop) (PC : Chk → Prop), CInv st PN PV PC →
+theorem all_nodes {K : String → Prop} {s : State} (w : CatWF s) (last : Nat) :
+    ∀ (ns : List Node) (st : State) (PN : Node → Prop) (PV : Svc → Prop) (PC : Chk → Prop), CInv K st PN PV PC →
       (∀ n ∈ ns, n ∈ s.nodes) → ns.Nodup →
       (∀ x, PN x → x ∈ s.nodes ∧ x ∉ ns) →
       (∀ x, PV x → x ∈ s.svcs ∧ ∀ n ∈ ns, lc x.node ≠ lc n.name) →
       (∀ x, PC x → x ∈ s.chks ∧ ∀ n ∈ ns, lc x.node ≠ lc n.name) →
+      CatKeys K (fun x => x ∈ ns ∨ PN x) (fun x => (∃ n ∈ ns, x ∈ svcsOf s n) ∨ PV x)
+          (fun x => (∃ n ∈ ns, x ∈ chksOf s n) ∨ PC x) →
       ∃ st', foldE (restoreRec last) (ns.flatMap (nodeRecs s)) st = .ok st' ∧
-        CInv st' (fun x => x ∈ ns ∨ PN x) (fun x => (∃ n ∈ ns, x ∈ svcsOf s n) ∨ PV x)
+        CInv K st' (fun x => x ∈ ns ∨ PN x) (fun x => (∃ n ∈ ns, x ∈ svcsOf s n) ∨ PV x)
           (fun x => (∃ n ∈ ns, x ∈ chksOf s n) ∨ PC x) := by
   intro ns
   induction ns with
   | nil =>
-    intro st PN PV PC h _ _ _ _ _
+    intro st PN PV PC h _ _ _ _ _ _
     exact ⟨st, rfl, h.congr (fun x => by simp) (fun x => by simp) (fun x => by simp)⟩
   | cons n ns ih =>
-    intro st PN PV PC h hmem hnd hPN hPV hPC
+    intro st PN PV PC h hmem hnd hPN hPV hPC hK
     obtain ⟨hn_notin, hnd'⟩ := List.nodup_cons.mp hnd
     have hn : n ∈ s.nodes := hmem n List.mem_cons_self
     obtain ⟨s1, e1, h1⟩ := one_node w last h n hn
       (fun x hx => ⟨(hPN x hx).1, fun e => (hPN x hx).2 (e ▸ List.mem_cons_self)⟩)
       (fun x hx => ⟨(hPV x hx).1, (hPV x hx).2 n List.mem_cons_self⟩)
       (fun x hx => ⟨(hPC x hx).1, (hPC x hx).2 n List.mem_cons_self⟩)
+      (hK.mono
+        (fun x hx => by
+          rcases hx with rfl | hx
+          · exact Or.inl List.mem_cons_self
+          · exact Or.inr hx)
+        (fun x hx => by
+          rcases hx with hx | hx
+          · exact Or.inl ⟨n, List.mem_cons_self, hx⟩
+          · exact Or.inr hx)
+        (fun x hx => by
+          rcases hx with hx | hx
+          · exact Or.inl ⟨n, List.mem_cons_self, hx⟩
+          · exact Or.inr hx))
     have hne : ∀ m ∈ ns, lc n.name ≠ lc m.name := fun m hm =>
       node_name_ne w hn (hmem m (List.mem_cons_of_mem _ hm)) (fun e => hn_notin (e ▸ hm))
     obtain ⟨st', e2, h2⟩ := ih s1 _ _ _ h1 (fun m hm => hmem m (List.mem_cons_of_mem _ hm)) hnd'
@@ -118,6 +137,22 @@ theorem all_nodes {s : State} (w : CatWF s) (last : Nat) :
         · obtain ⟨a, b⟩ := mem_chksOf.mp hx
           exact ⟨a, fun m hm => b ▸ hne m hm⟩
         · exact ⟨(hPC x hx).1, fun m hm => (hPC x hx).2 m (List.mem_cons_of_mem _ hm)⟩)
+      (hK.mono
+        (fun x hx => by
+          rcases hx with hx | rfl | hx
+          · exact Or.inl (List.mem_cons_of_mem _ hx)
+          · exact Or.inl List.mem_cons_self
+          · exact Or.inr hx)
+        (fun x hx => by
+          rcases hx with ⟨m, hm, hx⟩ | hx | hx
+          · exact Or.inl ⟨m, List.mem_cons_of_mem _ hm, hx⟩
+          · exact Or.inl ⟨n, List.mem_cons_self, hx⟩
+          · exact Or.inr hx)
+        (fun x hx => by
+          rcases hx with ⟨m, hm, hx⟩ | hx | hx
+          · exact Or.inl ⟨m, List.mem_cons_of_mem _ hm, hx⟩
+          · exact Or.inl ⟨n, List.mem_cons_self, hx⟩
+          · exact Or.inr hx))
     refine ⟨st', ?_, h2.congr (fun x => ?_) (fun x => ?_) (fun x => ?_)⟩
     · rw [List.flatMap_cons, foldE_append, e1]; exact e2
     · simp only [List.mem_cons]
@@ -152,14 +187,19 @@ theorem all_nodes {s : State} (w : CatWF s) (last : Nat) :
         · exact Or.inr (Or.inr hx)
 
 /-- **the catalog phase restores nodes, services and checks exactly** and leaves every other table empty -/
-theorem catalog_phase {s : State} (w : CatWF s) (last : Nat) :
+theorem catalog_phase {K : String → Prop} {s : State} (w : CatWF s) (last : Nat)
+    (hK : CatKeys K (· ∈ s.nodes) (· ∈ s.svcs) (· ∈ s.chks)) :
     ∃ c, foldE (restoreRec last) (s.nodes.flatMap (nodeRecs s)) State.empty = .ok c ∧
-      c.nodes = s.nodes ∧ c.svcs = s.svcs ∧ c.chks = s.chks ∧ otherView c = otherView State.empty ∧ IdxSorted c.index := by
+      c.nodes = s.nodes ∧ c.svcs = s.svcs ∧ c.chks = s.chks ∧ otherView c = otherView State.empty ∧ IdxSorted c.index ∧
+      KeysIn K c.index := by
   have nd : s.nodes.Nodup :=
     List.Pairwise.imp (fun hab => by intro e; subst e; exact absurd rfl (lt_ne strLt_ord hab)) w.ns
-  obtain ⟨c, e, h⟩ := all_nodes w last s.nodes State.empty _ _ _ cinv_empty (fun _ hn => hn) nd
+  obtain ⟨c, e, h⟩ := all_nodes (K := K) w last s.nodes State.empty _ _ _ (cinv_empty K) (fun _ hn => hn) nd
     (fun _ hx => hx.elim) (fun _ hx => hx.elim) (fun _ hx => hx.elim)
-  refine ⟨c, e, ?_, ?_, ?_, h.other, h.ix⟩
+    (hK.mono (fun x hx => hx.elim (fun h => h) False.elim)
+      (fun x hx => hx.elim (fun ⟨_, _, h⟩ => (mem_svcsOf.mp h).1) False.elim)
+      (fun x hx => hx.elim (fun ⟨_, _, h⟩ => (mem_chksOf.mp h).1) False.elim))
+  refine ⟨c, e, ?_, ?_, ?_, h.other, h.ix, h.ks⟩
   · apply tsorted_ext strLt_ord h.ns w.ns
     intro x; rw [h.mn]; simp
   · apply tsorted_ext strLt_ord h.vs w.vs
@@ -259,6 +299,34 @@ def earlyIndex (c : State) (s : State) : List (String × Nat) :=
       (s.kvs.foldl (fun ix e => idxMax ix "kvs" e.modify)
         (s.sessions.foldl (fun ix x => idxMax ix "sessions" x.modify) c.index)))
 
+/-- `k` is the key of a row of the original index table -/
+def HasRow (s : State) (k : String) : Prop := ∃ x ∈ s.index, k = x.1
+
+/-- The index table has a row for every key that a restorer running before `IndexRestore` computes:
+    the table-level rows of each non-empty table (with their `peer.~:` twins), `peer.~:node.<name>` per node,
+    `peer.~:service.<name>` and the `service_kind.typical` pair per service. (Keys as memdb stores them:
+    lower-cased.) Every write of the online path creates these rows, and only `deleteServiceTxn` /
+    `deleteNodeTxn` remove a per-name row — when the last instance of that name is gone. -/
+structure IdxCovers (s : State) : Prop where
+  cat : CatKeys (HasRow s) (· ∈ s.nodes) (· ∈ s.svcs) (· ∈ s.chks)
+  sessions : s.sessions ≠ [] → HasRow s (lc "sessions")
+  kvs : s.kvs ≠ [] → HasRow s (lc "kvs")
+  tombs : s.tombs ≠ [] → HasRow s (lc "tombstones")
+  queries : s.queries ≠ [] → HasRow s (lc "prepared-queries")
+
+theorem keysIn_foldl_max {β : Type} {K : String → Prop} (k : String) (f : β → Nat) (l : List β) (hk : l ≠ [] → K (lc k))
+    {ix : List (String × Nat)} (h : KeysIn K ix) : KeysIn K (l.foldl (fun a x => idxMax a k (f x)) ix) := by
+  cases l with
+  | nil => exact h
+  | cons y ys =>
+    have hk' := hk (by simp)
+    have : ∀ (l : List β) (ix : List (String × Nat)), KeysIn K ix → KeysIn K (l.foldl (fun a x => idxMax a k (f x)) ix) := by
+      intro l
+      induction l with
+      | nil => intro ix h; exact h
+      | cons z zs ih => intro ix h; exact ih _ (keysIn_max h hk' _)
+    exact this _ _ h
+
 /-- Well-formed states: well-formed catalog, the other tables in key order with non-empty keys,
     session_checks is the derived table, and the index table is in key order, lower-cased, and has a row for
     every key the restorers before `IndexRestore` compute. -/
@@ -273,26 +341,30 @@ structure SnapWF (s : State) : Prop where
   pqS : TSorted PQ.pk strLt s.queries
   idxS : IdxSorted s.index
   idxNorm : ∀ r ∈ s.index, lc r.1 = r.1
-  idxCover : ∀ c, foldE (restoreRec (lastIndexS s)) (earlyRecs s) State.empty = .ok c →
-    ∀ y ∈ c.index, ∃ x ∈ s.index, y.1 = x.1
+  idxCover : IdxCovers s
 
 /-- the restorers before `IndexRestore`, evaluated: every table but the index table is already the original -/
-theorem early_phase {s : State} (w : CatWF s) (last : Nat)
-    (kvKey : ∀ e ∈ s.kvs, e.key ≠ []) (tombKey : ∀ t ∈ s.tombs, t.key ≠ []) :
-    ∃ ix, IdxSorted ix ∧
+theorem early_phase {K : String → Prop} {s : State} (w : CatWF s) (last : Nat)
+    (kvKey : ∀ e ∈ s.kvs, e.key ≠ []) (tombKey : ∀ t ∈ s.tombs, t.key ≠ [])
+    (hK : CatKeys K (· ∈ s.nodes) (· ∈ s.svcs) (· ∈ s.chks))
+    (hKs : s.sessions ≠ [] → K (lc "sessions")) (hKk : s.kvs ≠ [] → K (lc "kvs"))
+    (hKt : s.tombs ≠ [] → K (lc "tombstones")) (hKq : s.queries ≠ [] → K (lc "prepared-queries")) :
+    ∃ ix, IdxSorted ix ∧ KeysIn K ix ∧
       foldE (restoreRec last) (earlyRecs s) State.empty =
         .ok { kvs := tInsertAll KV.pk keyLt [] s.kvs, tombs := tInsertAll Tomb.pk keyLt [] s.tombs,
               sessions := tInsertAll Sess.pk strLt [] s.sessions, sessChecks := deriveSC [] s.sessions,
               nodes := s.nodes, svcs := s.svcs, chks := s.chks,
               queries := tInsertAll PQ.pk strLt [] s.queries, index := ix, loc := {} } := by
-  obtain ⟨c, ec, hn, hv, hc, ho, hix⟩ := catalog_phase w last
+  obtain ⟨c, ec, hn, hv, hc, ho, hix, hks⟩ := catalog_phase w last hK
   have hcform : c = { nodes := s.nodes, svcs := s.svcs, chks := s.chks, index := c.index } := by
     cases c
     simp only [otherView, State.empty, Prod.mk.injEq] at ho
     simp_all
-  refine ⟨earlyIndex c s, ?_, ?_⟩
+  refine ⟨earlyIndex c s, ?_, ?_, ?_⟩
   · unfold earlyIndex
     exact idxSorted_foldl_max _ _ _ (idxSorted_foldl_max _ _ _ (idxSorted_foldl_max _ _ _ (idxSorted_foldl_max _ _ _ hix)))
+  · unfold earlyIndex
+    exact keysIn_foldl_max _ _ _ hKq (keysIn_foldl_max _ _ _ hKt (keysIn_foldl_max _ _ _ hKk (keysIn_foldl_max _ _ _ hKs hks)))
   · unfold earlyRecs
     rw [foldE_append, foldE_append, foldE_append, foldE_append, ec]
     simp only []
@@ -307,5 +379,74 @@ theorem early_phase {s : State} (w : CatWF s) (last : Nat)
     rw [foldE_map, foldE_total (fun st x => restoreRec last st (SRec.pq x)) restorePQ _ _ (fun _ _ _ => rfl)]
     rw [phase_sess, phase_kv, phase_tomb, phase_pq, hcform]
     simp [earlyIndex]
+
+/-- the index phase as a `tupsert` fold of the rows themselves (their keys are already lower-cased) -/
+theorem index_fold_tinsert (l acc : List (String × Nat)) (hn : ∀ r ∈ l, lc r.1 = r.1) :
+    l.foldl (fun a r => idxSet a r.1 r.2) acc = tInsertAll (·.1) strLt acc l := by
+  induction l generalizing acc with
+  | nil => rfl
+  | cons r rs ih =>
+    have hr : lc r.1 = r.1 := hn r List.mem_cons_self
+    simp only [List.foldl_cons, tInsertAll]
+    have : idxSet acc r.1 r.2 = tupsert (·.1) strLt r acc := by
+      unfold idxSet; rw [hr]
+    rw [this]
+    exact ih _ (fun x hx => hn x (List.mem_cons_of_mem _ hx))
+
+/-- the whole restore fold of a snapshot, with the index table of the early phase made explicit -/
+theorem restore_eval {K : String → Prop} {s : State} (w : CatWF s) (kvKey : ∀ e ∈ s.kvs, e.key ≠ []) (tombKey : ∀ t ∈ s.tombs, t.key ≠ [])
+    (hK : CatKeys K (· ∈ s.nodes) (· ∈ s.svcs) (· ∈ s.chks))
+    (hKs : s.sessions ≠ [] → K (lc "sessions")) (hKk : s.kvs ≠ [] → K (lc "kvs"))
+    (hKt : s.tombs ≠ [] → K (lc "tombstones")) (hKq : s.queries ≠ [] → K (lc "prepared-queries")) :
+    ∃ ix, IdxSorted ix ∧ KeysIn K ix ∧
+      foldE (restoreRec (lastIndexS s)) (earlyRecs s) State.empty =
+        .ok { kvs := tInsertAll KV.pk keyLt [] s.kvs, tombs := tInsertAll Tomb.pk keyLt [] s.tombs,
+              sessions := tInsertAll Sess.pk strLt [] s.sessions, sessChecks := deriveSC [] s.sessions,
+              nodes := s.nodes, svcs := s.svcs, chks := s.chks,
+              queries := tInsertAll PQ.pk strLt [] s.queries, index := ix, loc := {} } ∧
+      restoreS (snapshotS s) =
+        .ok { kvs := tInsertAll KV.pk keyLt [] s.kvs, tombs := tInsertAll Tomb.pk keyLt [] s.tombs,
+              sessions := tInsertAll Sess.pk strLt [] s.sessions, sessChecks := deriveSC [] s.sessions,
+              nodes := s.nodes, svcs := s.svcs, chks := s.chks,
+              queries := tInsertAll PQ.pk strLt [] s.queries,
+              index := s.index.foldl (fun a r => idxSet a r.1 r.2) ix, loc := {} } := by
+  obtain ⟨ix, hix, hks, e⟩ := early_phase w (lastIndexS s) kvKey tombKey hK hKs hKk hKt hKq
+  refine ⟨ix, hix, hks, e, ?_⟩
+  have hrecs : (snapshotS s).recs = earlyRecs s ++ s.index.map (fun r => SRec.index r.1 r.2) := by
+    simp [snapshotS, earlyRecs]
+  unfold restoreS
+  rw [hrecs, foldE_append]
+  have hl : (snapshotS s).last = lastIndexS s := rfl
+  rw [hl, e]
+  simp only []
+  rw [foldE_map, foldE_total (fun st (r : String × Nat) => restoreRec (lastIndexS s) st (SRec.index r.1 r.2))
+    (fun a r => a.setIdx r.1 r.2) _ _ (fun _ _ _ => rfl), phase_index]
+
+/-- two stores with the same replicated tables replay a log to the same replicated tables and results -/
+theorem replay_repl_agree' (log : Log) : ∀ (s₁ s₂ : State), s₁.repl = s₂.repl →
+    (replay s₁ log).repl = (replay s₂ log).repl ∧ replayResults s₁ log = replayResults s₂ log := by
+  induction log with
+  | nil => intro s₁ s₂ h; exact ⟨h, rfl⟩
+  | cons x rest ih =>
+    intro s₁ s₂ h
+    obtain ⟨idx, c⟩ := x
+    have ha := apply_sim (a := s₁) (b := s₂) h idx c
+    have := ih _ _ ha.1
+    simp only [replay, List.foldl_cons, replayResults] at this ⊢
+    exact ⟨this.1, by rw [ha.2, this.2]⟩
+
+theorem replay_append (s : State) (a b : Log) : replay s (a ++ b) = replay (replay s a) b := by
+  simp [replay, List.foldl_append]
+
+theorem replayResults_append (s : State) (a b : Log) :
+    replayResults s (a ++ b) = replayResults s a ++ replayResults (replay s a) b := by
+  induction a generalizing s with
+  | nil => rfl
+  | cons x xs ih =>
+    obtain ⟨i, c⟩ := x
+    simp only [List.cons_append, replayResults, replay, List.foldl_cons, List.cons.injEq, true_and]
+    exact ih _
+
+theorem repl_repl (s : State) : s.repl.repl = s.repl := rfl
 
 end CV.Store
